@@ -246,10 +246,16 @@ impl<'a> Binder<'a> {
             }
         };
         if q_limit.is_some() || q_offset.is_some() {
-            let skip = q_offset
-                .and_then(|o| self.expr_to_usize(&o.value).ok())
-                .unwrap_or(0);
-            let fetch = q_limit.and_then(|l| self.expr_to_usize(l).ok());
+            // A LIMIT/OFFSET that is not a non-negative integer literal is
+            // refused: silently dropping it would return the unlimited result.
+            let skip = match q_offset {
+                Some(o) => self.expr_to_usize(&o.value)?,
+                None => 0,
+            };
+            let fetch = match q_limit {
+                Some(l) => Some(self.expr_to_usize(l)?),
+                None => None,
+            };
 
             plan = LogicalPlan::Limit(LimitNode {
                 input: Arc::new(plan),
